@@ -164,7 +164,14 @@ func (m *C08) Block(w *world.World, e *world.BlockEvent) {
 	if minted.IsPositive() {
 		m.mintBlocks++
 		m.minted = m.minted.Add(minted)
-		tot := prev.Pool.TotalStorage
+		// "in proportion to pledged capacity": the denominator is the capacity actually pledged by the providers,
+		// not the pool's own running total
+		tot := int64(0)
+		for _, pl := range prev.Pledges {
+			if pl.TotalStorage > 0 {
+				tot += pl.TotalStorage
+			}
+		}
 		if tot > 0 {
 			maxCap := int64(0)
 			for p, pl := range prev.Pledges {
